@@ -227,8 +227,8 @@ impl Lexer {
                 "desc" => Some(Lexem::DescendingOrder),
                 "limit" => Some(Lexem::Limit),
                 "into" => Some(Lexem::Into),
-                "eq" | "ne" | "gt" | "lt" | "ge" | "le" | "gte" | "lte" | "regexp" | "rx"
-                | "like" | "between" => Some(Lexem::Operator(s)),
+                "eq" | "ne" | "eeq" | "ene" | "gt" | "lt" | "ge" | "le" | "gte" | "lte" | "regexp"
+                | "rx" | "notrx" | "like" | "notlike" | "between" => Some(Lexem::Operator(s)),
                 "mul" | "div" | "mod" | "plus" | "minus" => Some(Lexem::ArithmeticOperator(s)),
                 _ => Some(Lexem::RawString(s)),
             },
